@@ -86,7 +86,8 @@ impl AutoReloader {
     /// be possible to mutate it.
     ///
     /// If the creator function passed to the constructor fails, the error is
-    /// returned from this method.
+    /// returned from this method and the reload stays pending: the next call
+    /// invokes the creator function again.
     pub fn acquire_env(&self) -> Result<EnvironmentGuard<'_>, Error> {
         #[cfg(feature = "verif_hooks")]
         verif_hooks::yield_at(verif_hooks::Point::BeforeLock);
@@ -106,7 +107,15 @@ impl AutoReloader {
             if mutex_guard.is_none() || !self.notifier.fast_reload() {
                 #[cfg(feature = "verif_hooks")]
                 verif_hooks::yield_at(verif_hooks::Point::BeforeCreate);
-                *mutex_guard = Some((self.env_creator)(weak_notifier)?);
+                match (self.env_creator)(weak_notifier) {
+                    Ok(env) => *mutex_guard = Some(env),
+                    Err(err) => {
+                        // the reload did not happen: keep it pending so that the next
+                        // acquire retries instead of serving the stale environment.
+                        self.notifier.keep_reload_pending();
+                        return Err(err);
+                    }
+                }
                 #[cfg(feature = "verif_hooks")]
                 verif_hooks::yield_at(verif_hooks::Point::AfterCreate);
             } else {
@@ -390,6 +399,12 @@ impl Notifier {
         };
         handle.lock().unwrap().should_reload = false;
         Ok(weak_notifier)
+    }
+
+    fn keep_reload_pending(&self) {
+        if let Some(handle) = self.handle() {
+            handle.lock().unwrap().should_reload = true;
+        }
     }
 
     fn weak(&self) -> Notifier {
